@@ -85,6 +85,29 @@ def run(chk):
             ib = cs.p3(slot, pos, d, ps)
             it = cs.p3(slot, pos, d, [[4, 0, 0]])
             plan.append((ib, it, slot, d, ps))
+    # two worlds alive in one process that differ only in the global thermal constants (same gravity): asked one after the other at
+    # exactly the same points and depths outside every feature, each returns its own adiabat
+    import copy as _copy
+    for wi in range(6 if chk.tier == "quick" else 40):
+        rng.seed("%d/c03-2/%d" % (chk.seed, wi))
+        wa, sph = area_world(rng, spherical=(wi % 2 == 1))
+        wa.pop("force surface temperature", None)
+        wa["features"] = wa["features"][:1]
+        wb = _copy.deepcopy(wa)
+        wa["potential mantle temperature"], wa["thermal expansion coefficient"], wa["specific heat"] = 1600.0, 3.5e-5, 1250.0
+        wb["potential mantle temperature"], wb["thermal expansion coefficient"], wb["specific heat"] = (
+            float(round(rng.uniform(1300, 1900))), round(rng.uniform(1.5e-5, 5e-5), 7), float(round(rng.uniform(800, 1500))))
+        sa, sb = cs.add_world(wa), cs.add_world(wb)
+        for qi in range(8):
+            d = rng.choice([0.0, 1.0, 5e4, 1e5, 4e5, 1e6, -2e3])
+            if sph:
+                pos = cart_point(True, rng.uniform(-179, 179), rng.uniform(-85, 85), d, cs.worlds[sa][2].radius)
+            else:
+                pos = cart_point(False, rng.uniform(2e6, 5e6) * rng.choice([-1, 1]), rng.uniform(2e6, 5e6), d)
+            ps = [[1, 0, 0], [4, 0, 0]] if qi % 2 == 0 else prop_list(rng)
+            for sl in ((sa, sb, sa) if qi % 2 == 0 else (sb, sa)):
+                ib = cs.p3(sl, pos, d, ps)
+                plan.append((ib, cs.p3(sl, pos, d, [[4, 0, 0]]), sl, d, ps))
     impl, model = cs.run()
     chk.evaluations = len(impl)
     bad = [i for i in chk.correspond(impl, model, cs, max_ulp=0) if model[i] != "skip"]
